@@ -5,8 +5,8 @@ mod c17;
 mod c17_run;
 mod c18;
 mod c18_run;
-mod c20_inputs;
-mod c20_ops;
+pub use catalogue::c20_inputs;
+pub use catalogue::c20_ops;
 mod c20_run;
 mod seams;
 mod cli;
